@@ -87,8 +87,12 @@ def check_word(r, w, fam, containers=('f', 'i', 'l')):
     sub0 = {'fam': fam, 'w': w if n <= 16 else None}
     if n > 16:
         sub0['word'] = 'long'
-    for c in containers:
-        arr = np.array(w, dtype=float) if c == 'f' else (np.array(w, dtype=np.int64) if c == 'i' else list(w))
+    extra = ()
+    if n <= 6 and min(w) >= 0 and max(w) <= 4:
+        extra = ('u8', 'i16x100')     # unsigned (wrap-around on a falling step) and narrow integers with large steps
+    for c in tuple(containers) + extra:
+        arr = (np.array(w, dtype=float) if c == 'f' else np.array(w, dtype=np.int64) if c == 'i' else np.array(w, dtype=np.uint8) if c == 'u8'
+               else (np.array(w) * 100).astype(np.int16) if c == 'i16x100' else list(w))
         sub = dict(sub0, input=c)
         ok, got = r.call('all', sub, pc.get_peak_array_indices, arr)
         if ok:
@@ -105,11 +109,27 @@ def check_word(r, w, fam, containers=('f', 'i', 'l')):
             ok, got = r.call(pt, sub, pc.get_peak_array_indices, arr, pt)
             if ok:
                 r.expect_ints('ptype.' + pt, sub, got, [i for i, k in zip(idx, kinds) if k == pt])
-    # object-level wrapper
+    # object-level wrapper, also on an object whose record is replaced between two queries
     if n <= 5:
         ok, got = r.call('all', dict(sub0, input='signal-object'), pc.get_peak_indices, eqsig.AccSignal(np.array(w, dtype=float), 0.01))
         if ok:
             r.expect_ints('all.equals-turning-points', dict(sub0, input='signal-object'), got, idx)
+        w2 = [w[0]] + [2 * w[0] - v for v in w[1:]] if len(set(w[::-1])) > 1 else None   # mirrored about the first sample: same indices, and ...
+        w3 = list(w[::-1])                                                               # ... the reversed word: different ones in general
+        for cls_ in (eqsig.Signal, eqsig.AccSignal):
+            for wn in (w3,):
+                if len(set(wn)) == 1:
+                    continue
+                sub = dict(sub0, input=cls_.__name__ + '-reused', second=wn)
+
+                def reused():
+                    sg = cls_(np.array(w, dtype=float), 0.01)
+                    pc.get_peak_indices(sg)
+                    sg.reset_values(np.array(wn, dtype=float))
+                    return pc.get_peak_indices(sg)
+                ok, got = r.call('all', sub, reused)
+                if ok:
+                    r.expect_ints('all.object-after-reset_values', sub, got, ref.turning_points(wn)[0])
     # cycle counter
     arr = np.array(w, dtype=float)
     for opt in ('all', 'switched'):
